@@ -190,6 +190,9 @@ class MessageSigner(object):
             key = self._network.parse.address(key_or_address)
             if key is None:
                 return False
+            if key.info().get("type") not in ("p2pkh", "p2pkh_wit"):
+                # only an address that refers to a key can have signed a message
+                return False
         else:
             key = key_or_address
 
